@@ -22,7 +22,7 @@ import (
 )
 
 var rec = ev.New("C12",
-	"histories of 4-14 calls (Query, QueryRow, Count, InsertRow, InsertRows, UpsertRow, UpsertRows, UpdateRow, DeleteRow; with/without batching; inside/outside WithTx; complying, missing limit column, wrong value, same value in another Go type, extra raw OR clauses) on a handle restricted with WithShardLimit over 1-2 columns and/or WithDynamicLimit with drawn callbacks; oracle = predicate over the statement log of the model database; non-trivial = the history has an accepted and a rejected call and a batched SELECT serving >=2 filters; distinct = hash of the history description",
+	"histories of 4-14 calls (Query, QueryRow, Count, InsertRow, InsertRows, UpsertRow, UpsertRows, UpdateRow, DeleteRow; with/without batching; FullScanQuery; inside/outside WithTx / WithExistingTx; one *SelectOptions value shared between calls; calls through the unrestricted parent handle in between; complying, missing limit column, wrong value, same value in another Go type, extra raw OR clauses) on a handle restricted with WithShardLimit over 1-2 columns and/or WithDynamicLimit with drawn callbacks; oracle = predicate over the statement log of the model database; non-trivial = the history has an accepted and a rejected call and a batched SELECT serving >=2 filters; distinct = hash of the history description",
 	"BEGIN/COMMIT/ROLLBACK are not 'touching the database'", "a rejection of a same-value-different-type filter is conservative and allowed",
 	"a dynamic limit binds only when its ShouldContinueOnError callback returns false")
 
@@ -31,9 +31,9 @@ func TestMain(m *testing.M) { code := m.Run(); rec.Flush(); os.Exit(code) }
 var schema = sw.NewSchema()
 
 type limitSpec struct {
-	cols   []string
-	vals   []interface{}
-	descr  string
+	cols  []string
+	vals  []interface{}
+	descr string
 }
 
 func (l limitSpec) filter() sqlgen.Filter {
@@ -54,16 +54,26 @@ type op struct {
 	inTx    bool
 	descr   string
 	group   int // ops with the same non-zero group run concurrently under one batching context
+	// viaBase: the call goes through the unrestricted handle the limited one was derived from
+	// (another part of the program that is allowed to see everything); its statements are not
+	// judged. shareOpts: the call is handed the very *SelectOptions value the previous call
+	// with options used (a package-level options variable), not a copy. fullScan: Query is
+	// spelled FullScanQuery. existingTx: the transaction is begun on the connection and
+	// attached with WithExistingTx.
+	viaBase    bool
+	shareOpts  bool
+	fullScan   bool
+	existingTx bool
 }
 
 type world struct {
-	table string
-	shard limitSpec  // may be empty
-	dyn   *limitSpec // dynamic limit filter (nil = none or callback returns nil)
+	table        string
+	shard        limitSpec  // may be empty
+	dyn          *limitSpec // dynamic limit filter (nil = none or callback returns nil)
 	dynNilFilter bool
-	dynContinue bool
-	seed  []interface{}
-	ops   []op
+	dynContinue  bool
+	seed         []interface{}
+	ops          []op
 }
 
 func shardValue(table string, n int, variant int) interface{} {
@@ -151,6 +161,7 @@ func gen(t *rapid.T) world {
 			o.kind = "InsertRow"
 		}
 		o.inTx = rapid.IntRange(0, 3).Draw(t, "intx") == 0
+		o.existingTx = o.inTx && rapid.Bool().Draw(t, "existingtx")
 		comply := rapid.SampledFrom([]string{"ok", "ok", "ok", "missing", "wrong", "othertype"}).Draw(t, "comply")
 		genSelect := func(o *op) {
 			comply := rapid.SampledFrom([]string{"ok", "ok", "ok", "missing", "wrong", "othertype"}).Draw(t, "comply")
@@ -199,6 +210,13 @@ func gen(t *rapid.T) world {
 					}
 				case 1:
 					o.options = &sqlgen.SelectOptions{OrderBy: map[string]string{"row_a": "id", "row_b": "id", "row_c": "key"}[w.table], Limit: 3}
+				}
+				if o.kind == "Query" {
+					o.fullScan = rapid.IntRange(0, 4).Draw(t, "fullscan") == 0
+				}
+				if o.options != nil {
+					o.shareOpts = rapid.IntRange(0, 2).Draw(t, "shareopts") == 0
+					o.viaBase = rapid.IntRange(0, 3).Draw(t, "viabase") == 0
 				}
 				o.batched = o.options == nil && rapid.IntRange(0, 2).Draw(t, "batched") > 0
 				if o.batched && !o.inTx {
@@ -318,6 +336,18 @@ func describeOp(o op) string {
 	}
 	if o.inTx {
 		s += " tx"
+		if o.existingTx {
+			s += "(existing)"
+		}
+	}
+	if o.fullScan {
+		s = "FullScan" + s
+	}
+	if o.shareOpts {
+		s += " shared-options"
+	}
+	if o.viaBase {
+		s += " via-unrestricted-handle"
 	}
 	return s
 }
@@ -453,6 +483,7 @@ func check(w world) (nt bool, labels []string, sig string, err error) {
 		}
 	}
 	accepted, rejected, batchedMulti := 0, 0, false
+	var lastOpts *sqlgen.SelectOptions
 
 	runOne := func(o op, bctx context.Context) (err error) {
 		defer func() {
@@ -467,7 +498,19 @@ func check(w world) (nt bool, labels []string, sig string, err error) {
 			c = batch.WithBatching(ctx)
 		}
 		commit := func() error { return nil }
-		if o.inTx {
+		if o.inTx && o.existingTx {
+			tx, e := conn.BeginTx(c, nil)
+			if e != nil {
+				return fmt.Errorf("harness: BeginTx: %v", e)
+			}
+			c2, e := db.WithExistingTx(c, tx)
+			if e != nil {
+				return fmt.Errorf("harness: WithExistingTx: %v", e)
+			}
+			c = c2
+			commit = tx.Commit
+			defer tx.Rollback()
+		} else if o.inTx {
 			c2, tx, e := db.WithTx(c)
 			if e != nil {
 				return fmt.Errorf("harness: WithTx: %v", e)
@@ -479,13 +522,27 @@ func check(w world) (nt bool, labels []string, sig string, err error) {
 		typ := sw.Types[w.table]
 		var opts *sqlgen.SelectOptions
 		if o.options != nil {
-			cp := *o.options
-			opts = &cp
+			if o.shareOpts && lastOpts != nil {
+				opts = lastOpts
+			} else {
+				cp := *o.options
+				cp.Values = append([]interface{}(nil), o.options.Values...)
+				opts = &cp
+			}
+			lastOpts = opts
+		}
+		db := db
+		if o.viaBase {
+			db = base
 		}
 		switch o.kind {
 		case "Query":
 			res := reflect.New(reflect.SliceOf(reflect.PtrTo(typ)))
-			err = db.Query(c, res.Interface(), o.filter, opts)
+			if o.fullScan {
+				err = db.FullScanQuery(c, res.Interface(), o.filter, opts)
+			} else {
+				err = db.Query(c, res.Interface(), o.filter, opts)
+			}
 		case "QueryRow":
 			res := reflect.New(reflect.PtrTo(typ))
 			err = db.QueryRow(c, res.Interface(), o.filter, opts)
@@ -591,6 +648,13 @@ func check(w world) (nt bool, labels []string, sig string, err error) {
 				return false, nil, sig, err
 			}
 			i = j
+			continue
+		}
+		if o.viaBase {
+			if e := runOne(o, nil); e != nil && (strings.HasPrefix(e.Error(), "PANIC") || strings.HasPrefix(e.Error(), "harness:")) {
+				return false, nil, "harness", fmt.Errorf("harness: call through the unrestricted handle: %v", e)
+			}
+			i++
 			continue
 		}
 		beforeRows := eng.Rows(w.table)
